@@ -36,6 +36,12 @@ class Clause:
     self.node = ast.parse(src.strip(), mode="eval").body
 
   def serves(self, prop):
+    # "VALUE"-tagged clauses belong to the value pass of congruence-mode contracts (engine.verify): they are about the
+    # real integer values, the property-tagged ones about the ring argument; untagged clauses serve both passes
+    if prop == "__value_pass__":
+      return self.props is None or "VALUE" in self.props
+    if self.props is not None and "VALUE" in self.props:
+      return False
     return prop is None or self.props is None or prop in self.props
 
   def __repr__(self):
@@ -121,6 +127,8 @@ class Contract:
     # caller_ensures clauses are proved at every return like postconditions, unless textually an `ensures` clause or
     # listed here (then they are ASSUMED and reported as such in the evidence)
     self.caller_assumed = set(g("caller_assumed", []))
+    self.value_total = set(g("value_total", []))   # implicit exceptions that are obligations in the value pass
+    self.value_pass = g("value_pass", False)    # congruence-mode contract with VALUE-tagged clauses (second pass)
     self.bounded = g("bounded", None)
 
   def all_props(self):
